@@ -9,4 +9,4 @@ G=$(mktemp -d /var/tmp/mut-gen-XXXX)
 trap 'rm -rf "$D"; (cd /verif/coq && for f in */Gen.v; do cmp -s "$G/$f" "$f" || { cp "$G/$f" "$f"; touch "$f"; }; done); rm -rf "$G"' EXIT
 mkdir -p "$D" && cp -r /repo/src "$D/src" && rm -f "$D"/src/*.so
 (cd "$D" && patch -s -p1 < /verif/seeded/$S/patch.diff)
-cd /verif && VERIF_REPO="$D" ./check "$C" --tier "$T" 2>&1 | grep -E "^(OK|VIOLATION|KNOWN-FINDING|CHECK-ERROR|BUILD-ERROR|  )" | head -12
+cd /verif && VERIF_REPO="$D" ./check "$C" --tier "$T" 2>&1 | grep -E "^(OK|VIOLATION|CHECK-ERROR|BUILD-ERROR|  )" | head -12
